@@ -198,7 +198,8 @@ def check_fixed(st):
                     st.violation('fixed:text-fingerprint:%s' % name, {'fin': rep.fin, 'expected': sha})
 
 
-CA_KINDS = [('rsa', b) for b in (1024, 2047, 2048, 2056, 3071, 3072, 4096)] + [('ed25519', 256), ('ecdsa', 256), ('ecdsa', 384), ('ecdsa', 521)]
+CA_KINDS = [('rsa', b) for b in (1024, 2047, 2048, 2056, 3071, 3072, 4096)] + [('ed25519', 256), ('ecdsa', 256), ('ecdsa', 384), ('ecdsa', 521),
+                                                                                      ('sk-ed25519', 256), ('sk-ecdsa', 256)]       # FIDO-backed CAs (OpenSSH 8.2+): the key in the blob is the plain curve key
 CERT_HOST = [('ssh-rsa-cert-v01@openssh.com', b) for b in (1024, 2048, 3072, 4096)] + [('rsa-sha2-512-cert-v01@openssh.com', 2048), ('ssh-ed25519-cert-v01@openssh.com', 256)]
 
 
@@ -212,6 +213,10 @@ def work_cert(chunk, st):
             ca_tree, ca_type = wire.rsa_blob_tree(cab), 'ssh-rsa'
         elif cak == 'ed25519':
             ca_tree, ca_type = wire.ed25519_blob_tree(b'\x44' * 32), 'ssh-ed25519'
+        elif cak == 'sk-ed25519':
+            ca_tree, ca_type = wire.sk_ed25519_blob_tree(), 'sk-ssh-ed25519@openssh.com'
+        elif cak == 'sk-ecdsa':
+            ca_tree, ca_type = wire.sk_ecdsa_blob_tree(cab), 'sk-ecdsa-sha2-nistp%d@openssh.com' % cab
         else:
             ca_tree, ca_type = wire.ecdsa_blob_tree(cab), 'ecdsa-sha2-nistp%d' % cab
         if 'ed25519' in cname:
